@@ -653,6 +653,7 @@ pub fn run(run: &Run) {
         };
         let opts = BfsOptions { max_depth: Some(depth), max_states: Some(if thorough { 40_000_000 } else { 4_000_000 }), ..Default::default() };
         let (stats, viols) = bfs(&g, vec![init.clone()], &opts);
+        run.sample_paths(name, &stats.sample_paths);
         ts += stats.states;
         tt += stats.transitions;
         ti += stats.impl_steps;
